@@ -302,5 +302,45 @@ func main() {
 		}
 		emit(fmt.Sprintf("RFreq %d %d", n, total), "frequency", false, nil, "OList "+vhlib.IntList(cnt), true, map[string]interface{}{"call": "freq", "n": n, "counts": cnt})
 	}
+	for _, n := range []int64{3, 5, 6, 7, 15, 31} {
+		total := 4000 * int(n)
+		cnt := make([]int, n)
+		for i := 0; i < total; i++ {
+			v := fastrand.Int63n(n)
+			if v >= 0 && v < n {
+				cnt[v]++
+			}
+		}
+		emit(fmt.Sprintf("RFreq63 %d %d", n, total), "frequency(Int63n)", false, nil, "OList "+vhlib.IntList(cnt), true, map[string]interface{}{"call": "freq63", "n": n, "counts": cnt})
+	}
+	// large n: residues of Intn(n) modulo a small divisor of n (a wrong rejection step biases them), 15 % tolerance on
+	// 10000 expected per class (about 18 standard deviations)
+	for _, c := range [][2]int64{{3 << 29, 3}, {5 << 28, 5}, {7 << 28, 7}, {3 << 20, 3}} {
+		n, m := c[0], c[1]
+		total := 10000 * int(m)
+		cnt := make([]int, m)
+		for i := 0; i < total; i++ {
+			cnt[int64(fastrand.Intn(int(n)))%m]++
+		}
+		emit(fmt.Sprintf("RFreqMod %d %d %d", n, m, total), "frequency(large n)", false, nil, "OList "+vhlib.IntList(cnt), true, map[string]interface{}{"call": "freqmod", "n": n, "m": m, "counts": cnt})
+	}
+	// Shuffle over the 31-bit boundary: the callback aborts after the first swap
+	type stop struct{}
+	for _, n := range []int64{1<<31 - 1, 1 << 31, 1<<31 + 1, 1 << 32, 1<<40 + 3} {
+		var pairs []string
+		aborted := false
+		p, val := vhlib.Recover(func() {
+			fastrand.Shuffle(int(n), func(i, j int) {
+				pairs = append(pairs, vhlib.Pair(vhlib.Z(int64(i)), vhlib.Z(int64(j))))
+				aborted = true
+				panic(stop{})
+			})
+		})
+		obs := "OPairs " + vhlib.List(pairs)
+		if _, mine := val.(stop); p && !(mine && aborted) {
+			obs = "OPanic"
+		}
+		emit(fmt.Sprintf("RShuffleBig %d", n), "Shuffle(big n)", false, nil, obs, true, map[string]interface{}{"call": "shufflebig", "n": n, "obs": obs})
+	}
 	w.Close(o, "one case = one call of a fastrand function; replayable calls (fastrand.Uint32 replaced by a recording source) carry the draws consumed and are re-run through the Coq model; distinct = distinct (call, draws, observation) terms; non-trivial = consumed at least one draw / n >= 2 for Perm and Shuffle / len > 0 for Read / any runtime-sourced call")
 }
